@@ -68,6 +68,62 @@ pub fn labels_str(s: &Sentence) -> String {
     }
 }
 
+/// `X <hex text> [c03|c04]`: every character a token of its own, tagged with itself; both writers and what both parsers
+/// read back (escaping of every scalar value in surface and tag position, in both formats)
+pub fn run_x(h: &str, oracle: &str, fails: &mut Vec<(String, String)>) -> String {
+    use std::borrow::Cow;
+    let Some(text) = crate::util::unhexs(h) else { return "bad-case".into() };
+    let built = catch(|| {
+        let mut s = Sentence::from_raw(text.clone()).map_err(|_| ())?;
+        for b in s.boundaries_mut() {
+            *b = vaporetto::CharacterBoundary::WordBoundary;
+        }
+        s.reset_tags(1);
+        for (i, c) in text.chars().enumerate() {
+            s.tags_mut()[i] = Some(Cow::Owned(c.to_string()));
+        }
+        let mut w = String::new();
+        s.write_tokenized_text(&mut w);
+        let mut p = String::new();
+        s.write_partial_annotation_text(&mut p);
+        Ok::<_, ()>((w, p))
+    });
+    let (w, p) = match built {
+        Ok(Ok(x)) => x,
+        Ok(Err(())) => return "err".into(),
+        Err(_) => return "panic".into(),
+    };
+    let back = |r: Result<Result<Sentence, vaporetto::errors::VaporettoError>, String>| -> String {
+        match r {
+            Ok(Ok(t)) => format!(
+                "T{};B{};K{};G{}",
+                hexs(t.as_raw_text()),
+                t.boundaries().iter().map(|&b| label_char(b)).collect::<String>(),
+                t.n_tags(),
+                t.tags().iter().map(show_tag).collect::<Vec<_>>().join(".")
+            ),
+            Ok(Err(_)) => "err".into(),
+            Err(_) => "panic".into(),
+        }
+    };
+    let wb = back(catch(|| Sentence::from_tokenized(&w)));
+    let pb = back(catch(|| Sentence::from_partial_annotation(&p)));
+    let want = format!(
+        "T{};B{};K1;G{}",
+        hexs(&text),
+        "W".repeat(text.chars().count().saturating_sub(1)),
+        text.chars().map(|c| hexs(&c.to_string())).collect::<Vec<_>>().join(".")
+    );
+    if oracle == "c03" && wb != want {
+        let k = text.chars().zip(0..).find(|(c, _)| !wb.contains(&hexs(&c.to_string()))).map(|x| x.0);
+        fails.push(("C03".into(), format!("a sentence of one-character tokens tagged with themselves does not survive write_tokenized_text + from_tokenized (first suspicious character {k:?}): written {w:?}")));
+    }
+    if oracle == "c04" && pb != want {
+        fails.push(("C04".into(), format!("a sentence of one-character tokens tagged with themselves does not survive write_partial_annotation_text + from_partial_annotation: written {p:?}")));
+    }
+    format!("W{}|P{}|{wb}|{pb}", hexs(&w), hexs(&p))
+}
+
 /// every public observation of a sentence, each taken under `catch_unwind`
 pub fn obs(s: &Sentence) -> String {
     obs_sel(s, "")
